@@ -78,7 +78,7 @@ def finish_check(prop, tier, ex, t0, build_s, oracle, ref_fn, assumptions, extra
             violations.append(path)
             reported += 1
             log("violation: %s on %s: %s" % (cls, f["case"].key(), msg))
-        else:
+        elif mf:
             mfaults.append(mf)
     wall = time.time() - t0
     cov = ex.coverage(wall, build_s, dict({"regression_replays_run": nreg}, **(extra_cov or {})))
